@@ -721,6 +721,8 @@ pub (crate) fn bid128_ext_fma(
     let mut eq_half_ulp: bool = false;
     let mut gt_half_ulp: bool = false;
     let mut is_tiny: bool = false;
+    #[allow(unused_mut)]
+    let mut not_tiny_after_rounding: bool = false; // only set with the tininess-after-rounding feature
     let mut R64: BID_UINT64;
     let mut tmp64: BID_UINT64;
     let mut P128: BID_UINT128 = Default::default();
@@ -1488,6 +1490,24 @@ pub (crate) fn bid128_ext_fma(
         if q4 + e4 < EXP_MIN_UNBIASED + p34 {
             is_tiny = true; // the result is tiny
             // (good also for most cases if 'before rounding')
+            // tininess after rounding is decided on the value rounded in the requested direction: 99...9 * 10^(emin-1),
+            // rounded away from zero, is 10^33 * 10^emin, which is not tiny
+            #[cfg(feature = "decimal_tiny_detection_after_rounding")]
+            if rnd_mode != RoundingMode::NearestEven && q4 == p34 && e4 == EXP_MIN_UNBIASED - 1
+            && (is_inexact_lt_midpoint || is_inexact_gt_midpoint || is_midpoint_lt_even || is_midpoint_gt_even) {
+                let mut P128t: BID_UINT128 = BID_UINT128 { w: [res.w[0], p_sign | 0x3040000000000000u64 | (res.w[1] & MASK_COEFF)] };
+                let mut tmp_fpsf: _IDEC_flags = StatusFlags::BID_EXACT_STATUS;
+                bid_rounding_correction(
+                    rnd_mode,
+                    is_inexact_lt_midpoint,
+                    is_inexact_gt_midpoint,
+                    is_midpoint_lt_even,
+                    is_midpoint_gt_even,
+                    0, &mut P128t, &mut tmp_fpsf);
+                if ((P128t.w[1] & MASK_EXP) >> 49) as i32 - 6176 == 1 {
+                    not_tiny_after_rounding = true;
+                }
+            }
             if e4 < EXP_MIN_UNBIASED {
                 // if e4 < EXP_MIN_UNBIASED, we must truncate more of res
                 x0                      = EXP_MIN_UNBIASED - e4; // x0 >= 1
@@ -1672,7 +1692,9 @@ pub (crate) fn bid128_ext_fma(
             if is_inexact_lt_midpoint || is_inexact_gt_midpoint || is_midpoint_lt_even || is_midpoint_gt_even {
                 // set the inexact flag and the underflow flag
                 *pfpsf |= StatusFlags::BID_INEXACT_EXCEPTION;
-                *pfpsf |= StatusFlags::BID_UNDERFLOW_EXCEPTION;
+                if !not_tiny_after_rounding {
+                    *pfpsf |= StatusFlags::BID_UNDERFLOW_EXCEPTION;
+                }
             }
             res.w[1] |= p_sign | (((e4 + 6176) as BID_UINT64) << 49);
             if rnd_mode != RoundingMode::NearestEven {
